@@ -15,6 +15,26 @@ Families:
          in the ordinary `seq` stream.  NaN is excluded: `x < nan` and `nan < x` are both False, so "an element with
          the smallest value" is not defined on a collection holding a NaN and the property states nothing there.
 
+  look   the OBSERVATION POLICY is a generated dimension of the histories.  Reading `best` is itself an event in the life of
+         the object (a cache that the getter repairs is healed by every look), so a harness that reads `best` after every single
+         operation only ever sees freshly observed objects.  Three policies: `every-step` (all families above), `end-only`
+         (`best` is read once, after the last operation) and `some-steps` (after a random subset of the steps and at the end).
+         At an unobserved step only what a plain list shows is recorded (items, returned element, exception) and compared with
+         the model — whose state is known after every step; clause (a) is judged, and the model's `best` compared, exactly at the
+         steps that are looked at.  `blindtree` = every sequence of length <= 3 over the 35-operation core alphabet (thorough:
+         the full alphabet, and the `inf` tree) from the 5 initial collections, each looked at only at its END: every node is
+         judged on raw copies of the two collections (list part + instance dictionary, copied without any attribute read
+         through the class), the objects the longer histories go on with stay unobserved.  60% of the random `seq` / `infseq`
+         histories run `end-only` or `some-steps`.  A failure first seen after unobserved steps is localised (the history is
+         re-run up to each unobserved step with one look at its end) and its signature ends `:after-unobserved-steps`.
+  ety    the Python TYPE the state entries 0 / 1 / -1 are spelled in: int, bool, float, numpy int64 / int8 / bool_ / float32,
+         Fraction, Decimal, sympy Integer, mixed — the types the unchanged conversions accept (they look each entry up by value;
+         measured on /repo), e.g. what `dict(enumerate(numpy_array))` gives.  `etytree` = every sequence of length <= 3 over a
+         13-operation alphabet around to_boolean / to_spin (both kinds of elements arriving by every route, copies, slices, user
+         functions on states) from 3 initial collections, per entry type; half of the random histories draw an entry type.
+         The model sees the entries by value; the oracle judges (d) element-wise: same labels, b -> 1 - 2b, z -> (1 - z) / 2,
+         mutually inverse, no exception on states inside the domain.
+
 Two collections are kept (`cur`, the receiver, and `aux`, a second AnnealResults object that serves as
 operand of extend / += / +), so that operands with their own history occur.
 
@@ -24,7 +44,8 @@ Direct oracle (written from the property text, shares nothing with the Lean mode
       the call on a shadow plain list); operations without list counterpart must not raise at all (except the
       conversions on states outside their domain);
   (c) derived collections are AnnealResults and leave the receiver untouched;
-  (d) to_boolean / to_spin keep values, set the flag, and are mutually inverse on states;
+  (d) to_boolean / to_spin keep values, set the flag, convert every entry of a state of the other kind (whatever number
+      type spells it) and are mutually inverse on states;
   (e) sort orders by value and permutes.
 A violation is attributed to the operation that turns a state satisfying (a) into one that does not (or
 that raises from such a state); its signature names that operation and the kind of failure, so a different
@@ -45,9 +66,14 @@ RULE = ("operation histories on AnnealResults: all sequences of length <=3 over 
         "all sequences of length <=3 over 22 core operations + 17 operations with +inf / -inf / +-2^80 operands from 4 initial collections "
         "holding infinite values and ties, plus "
         "random sequences of length <=15 with random operands (12% infinite / huge values; a second stream with 70%); a history is non-trivial when some step changes "
-        "the best value / emptiness or raises; distinct = distinct (initial collection, sequence) JSON")
+        "the best value / emptiness or raises; distinct = distinct (initial collection, sequence) JSON; observation policy as a "
+        "dimension: every sequence of length <=3 over the 35-operation core from the 5 initial collections looked at only at its end "
+        "(judged on raw copies), 60% of the random histories with `best` read only at the end or after a random subset of steps; "
+        "state entries spelled as int / bool / float / numpy int64, int8, bool_, float32 / Fraction / Decimal / sympy Integer / mixed: "
+        "every sequence of length <=3 over 13 conversion-related operations from 3 initial collections per type, and half of the random histories")
 ASSUMPTIONS = [
-    "states are dicts with int labels, compared as label-sorted association lists; values are int / Fraction / "
+    "states are dicts with int labels, compared as label-sorted association lists with the entries read by value (the entry "
+    "types of family `ety` are realisations of the same abstract state); values are int / Fraction / "
     "dyadic float (exact) / float('inf') / -float('inf'); NaN values are outside the property (no least element)",
     "user functions passed to filter / filter_states / apply_function / convert_states are drawn from a small "
     "named family (the Lean theorems quantify over arbitrary functions)",
@@ -154,16 +180,61 @@ def vs(v):
     f = Fraction(v)
     return str(f.numerator) if f.denominator == 1 else "%d/%d" % (f.numerator, f.denominator)
 
+# the Python types a state entry 0 / 1 / -1 is spelled in (family `ety`).  The unchanged code converts a state by looking each
+# entry up in a two-entry dict, i.e. it accepts every hashable number that equals (and hashes like) 0 / 1 / -1 — measured on
+# /repo for dict, list and tuple containers: int, bool, float, numpy int64 / int8 / bool_ / float32 / float64, Fraction,
+# Decimal, sympy Integer.  (A *scalar* argument of a type outside int / float is rejected by boolean_to_spin itself.)
+ETYPES = ("int", "bool", "float", "npint64", "npint8", "npbool", "npfloat32", "Fraction", "Decimal", "sympy", "mixed")
+
+MIXABLE = ("bool", "float", "npint64", "npint8", "npbool", "npfloat32", "Fraction")
+
+def entry(v, ety, pos=0):
+    """the integer v (0, 1, -1; anything else stays an int) as a number of the entry type"""
+    if ety == "int" or v not in (0, 1, -1):
+        return v
+    if ety == "mixed":
+        # (only types that also compare coherently with EACH OTHER: Decimal == numpy.int64 raises TypeError and sympy's
+        # Integer(1) != 1.0 — quirks of those number types among themselves, met by a plain list of such dicts just as well;
+        # Decimal and sympy entries are used uniformly, where they only ever meet ints)
+        ety = MIXABLE[(pos * 7 + v + 1) % len(MIXABLE)]
+    if ety == "bool":
+        return bool(v) if v >= 0 else v
+    if ety == "float":
+        return float(v)
+    if ety == "Fraction":
+        return Fraction(v)
+    if ety == "Decimal":
+        import decimal
+        return decimal.Decimal(v)
+    if ety == "sympy":
+        import sympy
+        return sympy.Integer(v)
+    import numpy as np
+    if ety == "npbool":
+        return np.bool_(v) if v >= 0 else np.int64(v)
+    return {"npint64": np.int64, "npint8": np.int8, "npfloat32": np.float32}[ety](v)
+
+_slots = {}
+
+def _slot_descriptors(cls):
+    if cls not in _slots:
+        _slots[cls] = [c.__dict__[n] for c in cls.__mro__ for n in getattr(c, "__slots__", ())
+                       if n not in ("__dict__", "__weakref__") and n in c.__dict__]
+    return _slots[cls]
+
 class Impl:
     """the real classes, plus the named user-function families"""
-    def __init__(self, style="frac"):
+    def __init__(self, style="frac", ety="int"):
         from qubovert.sim import AnnealResult, AnnealResults
-        self.R, self.AR, self.style = AnnealResult, AnnealResults, style
+        self.R, self.AR, self.style, self.ety = AnnealResult, AnnealResults, style, ety
         self._cache = {}
+
+    def state(self, st):
+        return {k: entry(v, self.ety, k) for k, v in st}
 
     def mk(self, rj):
         # one AnnealResult object per use (no sharing between operands)
-        return self.R({k: v for k, v in rj[0]}, num(rj[1], self.style), rj[2])
+        return self.R(self.state(rj[0]), num(rj[1], self.style), rj[2])
 
     def mkl(self, lj):
         return [self.mk(r) for r in lj]
@@ -172,6 +243,21 @@ class Impl:
         y = self.AR()
         list.extend(y, x)
         y.best = x.best
+        return y
+
+    def rawclone(self, x):
+        """a copy of the object as it is, made WITHOUT any attribute read through the class (no `best` getter runs, no
+        method of AnnealResults is called): the list part is copied by `list`, the instance dictionary entry by entry.
+        Looking at the copy leaves the original unobserved."""
+        y = list.__new__(type(x))
+        list.extend(y, list.__iter__(x))
+        if hasattr(x, "__dict__"):
+            y.__dict__.update(x.__dict__)
+        for d in _slot_descriptors(type(x)):             # (a class that keeps its state in slots)
+            try:
+                d.__set__(y, d.__get__(x, type(x)))
+            except AttributeError:
+                pass
         return y
 
     def result_pred(self, op):
@@ -238,7 +324,7 @@ def call(I, op, cur, aux):
     if o == "append":
         cur.append(I.mk(op["r"])); return cur, aux, None, None
     if o == "add_state":
-        r = op["r"]; cur.add_state({k: v for k, v in r[0]}, num(r[1], I.style), r[2]); return cur, aux, None, None
+        r = op["r"]; cur.add_state(I.state(r[0]), num(r[1], I.style), r[2]); return cur, aux, None, None
     if o == "insert":
         cur.insert(op["i"], I.mk(op["r"])); return cur, aux, None, None
     if o == "remove":
@@ -357,9 +443,32 @@ def shadow_raises(I, op, items, aux_items):
 
 # ------------------------------------------------------------------ canonical observation (same format as Qv.Drv.stepStr)
 
+def estr(v):
+    """a state entry by VALUE (whatever its Python type): the integer it equals"""
+    try:
+        i = int(v)
+        if v == i:
+            return "%d" % i
+    except Exception:
+        pass
+    return repr(v)
+
 def rstr(r):
     st = r.state
-    return "%s:%d:%s" % (vs(r.value), 1 if r.spin else 0, ",".join(["%d=%d" % (k, st[k]) for k in sorted(st)]))
+    return "%s:%d:%s" % (vs(r.value), 1 if r.spin else 0, ",".join(["%d=%s" % (k, estr(st[k])) for k in sorted(st)]))
+
+def istr(c):
+    """what a plain list shows of the collection (no read of `best`)"""
+    return ";".join([rstr(r) for r in list.__iter__(c)]) + "|?|?"
+
+def mask(s):
+    """an observation string (implementation or model) without what only a read of `best` shows"""
+    f = s.split("#")
+    if len(f) != 5:
+        return s
+    f[2] = f[2].rsplit("|", 2)[0] + "|?|?"
+    f[3] = f[3].rsplit("|", 2)[0] + "|?|?"
+    return "#".join(f)
 
 def cstr(c):
     b = c.best
@@ -416,12 +525,27 @@ def opclass(o):
             "extend_iter": "extend-iterator", "iadd_iter": "iadd-iterator", "setslice_iter": "slice-assign",
             "add_aux": "add", "imul": "mul"}.get(o, o)      # `res *= n` resolves to AnnealResults.__mul__
 
-def step_impl(I, op, cur, aux, pre_ok):
-    """one step on the real objects.  Returns (cur', aux', observation string, [(signature, why)], post_ok)"""
+def same(c):
+    return c
+
+UNSEEN = object()
+
+def step_impl(I, op, cur, aux, pre_ok, view=same, pre_seen=True):
+    """one step on the real objects.  Returns (cur', aux', observation string, [(signature, why)], post_ok).
+
+    `view` is the observation policy of this step (the harness's own reads of `best` are part of the history the object
+    lives through: a cache that is repaired by the getter is healed by every look):
+      same          the harness reads `best` of the collections themselves after the step (read-after-every-step mode);
+      I.rawclone    it reads `best` of raw copies: the step is judged, the objects of the history stay unobserved;
+      None          it does not look: only what a plain list shows (items, returned element, exception) is recorded, the
+                    observation string carries `?` for the two `best` fields, clause (a) is not judged at this step.
+    `pre_seen`: the collections were looked at (with `same`) after the previous step, so reading `cur.best` before the
+    call changes nothing."""
     o = op["o"]
     bad = []
-    items0 = list(list.__iter__(cur)); best0 = cur.best
-    aux0 = list(list.__iter__(aux)); auxbest0 = aux.best
+    items0 = list(list.__iter__(cur))
+    best0 = cur.best if (view is same and pre_seen) else UNSEEN
+    aux0 = list(list.__iter__(aux))
     derived = None
     try:
         c2, a2, ret, derived = call(I, op, cur, aux)
@@ -441,37 +565,43 @@ def step_impl(I, op, cur, aux, pre_ok):
                 sig = "C13:%s-raises-%s" % (opclass(o), en)
             bad.append((sig, "%s raises %s (%s) although a plain list with the same %d elements accepts the call"
                         % (o, en, e, len(items0))))
+    vd = None
     if derived is not None:
         if not isinstance(derived, I.AR):
             bad.append(("C13:%s-returns-plain-list" % opclass(o),
                         "%s returns a %s, not an AnnealResults" % (o, type(derived).__name__)))
             out = "plain:%s#" % ";".join(rstr(r) for r in derived)
             c2 = cur                               # the history goes on with the receiver
-        else:
-            f = inv_fail(derived)
+        elif view is not None:
+            vd = view(derived)
+            f = inv_fail(vd)
             if f:
                 bad.append(("C13:%s-derived-stale-best" % opclass(o), "collection returned by %s: %s" % (o, f)))
-        if o != "construct" and (list(list.__iter__(cur)) != items0 or any(x is not y for x, y in zip(cur, items0))
-                                 or cur.best is not best0):
+        if o != "construct" and (list(list.__iter__(cur)) != items0 or any(x is not y for x, y in zip(list.__iter__(cur), items0))
+                                 or (best0 is not UNSEEN and cur.best is not best0)):
             bad.append(("C13:%s-modifies-receiver" % opclass(o), "%s changed the receiver" % o))
         if isinstance(derived, I.AR) and o in ("to_boolean", "to_spin"):
             f = conv_fail(o, items0, derived)
             if f:
                 bad.append(("C13:%s-wrong-result" % o, f))
     if o == "sort" and out.startswith("ok"):
-        vals = [r.value for r in c2]
+        vals = [r.value for r in list.__iter__(c2)]
         want = sorted(vals, reverse=bool(op.get("rev")))
         if vals != want:
             bad.append(("C13:sort-not-sorted", "after sort the values are %s" % [vs(v) for v in vals]))
-        if sorted(map(id, c2)) != sorted(map(id, items0)):
+        if sorted(map(id, list.__iter__(c2))) != sorted(map(id, items0)):
             bad.append(("C13:sort-not-a-permutation", "sort changed the multiset of elements"))
-    fc, fa = inv_fail(c2), inv_fail(a2)
+    acc = "A1" if list_accepts(I, op, items0, aux0) else "A0"
+    if view is None:
+        return c2, a2, "%s#%s#%s#%s" % (out, istr(c2), istr(a2), acc), bad, pre_ok
+    vc = vd if (vd is not None and c2 is derived) else view(c2)
+    va = view(a2)
+    fc, fa = inv_fail(vc), inv_fail(va)
     post_ok = fc is None and fa is None
     if not post_ok and pre_ok and o in MUTATORS | {"swap", "stash"}:
         which = fc or fa
         bad.append(("C13:%s-stale-best" % opclass(o), "after %s: %s" % (json.dumps(op), which)))
-    acc = "A1" if list_accepts(I, op, items0, aux0) else "A0"
-    return c2, a2, "%s#%s#%s#%s" % (out, cstr(c2), cstr(a2), acc), bad, post_ok
+    return c2, a2, "%s#%s#%s#%s" % (out, cstr(vc), cstr(va), acc), bad, post_ok
 
 def operand_empty(op, items0, aux0):
     o = op["o"]
@@ -492,7 +622,22 @@ def conv_fail(o, items0, derived):
             return "%s left spin flag %s" % (o, t.spin)
         if not well_typed([r]):
             continue        # outside the domain of the conversions: nothing to invert
-        back = t.to_boolean() if o == "to_spin" else t.to_spin()
+        # element-wise: same labels; a result of the other kind has every entry converted (b -> 1 - 2b, z -> (1 - z) / 2),
+        # whatever number type spells the entry
+        if set(t.state) != set(r.state):
+            return "%s changed the labels of a state: %s -> %s" % (o, sorted(r.state), sorted(t.state))
+        if r.spin != (o == "to_spin"):
+            for k, v in r.state.items():
+                want = 1 - 2 * int(v) if o == "to_spin" else (1 - int(v)) // 2
+                if not (t.state[k] == want):
+                    return "%s is not the element-wise conversion: entry %r -> %r, expected %d (state %s -> %s)" % (
+                        o, v, t.state[k], want, r.state, t.state)
+        try:
+            back = t.to_boolean() if o == "to_spin" else t.to_spin()
+            again = back.to_spin() if o == "to_spin" else back.to_boolean()
+        except Exception as e:
+            return "%s returned the state %r (from %r), on which the opposite conversion raises %s (%s)" % (
+                o, t.state, r.state, type(e).__name__, e)
         if r.spin == (o == "to_boolean"):
             # r was of the other kind: converting back must give r's state
             if back.state != r.state or back.value != r.value:
@@ -500,7 +645,6 @@ def conv_fail(o, items0, derived):
         else:
             if t.state != r.state:
                 return "%s changed the state of a result already of that kind" % o
-        again = back.to_spin() if o == "to_spin" else back.to_boolean()
         if again.state != t.state:
             return "conversions are not mutually inverse on %s" % (t.state,)
     return None
@@ -518,17 +662,65 @@ def same_obs(ctx, impl, model):
 
 # ------------------------------------------------------------------ running whole sequences
 
-def run_seq(I, case, upto=None):
-    """the real code on one case; returns (observations, [(step index, signature, why)])"""
+def looks(case, n=None):
+    """the observation policy of a history: look[k] = 1 iff the harness reads `best` after step k (absent: after every step)"""
+    n = len(case["seq"]) if n is None else n
+    look = case.get("look")
+    return [1] * n if look is None else [int(bool(x)) for x in look[:n]] + [1] * (n - len(look[:n]))
+
+def cut(case, k):
+    """the history up to and including step k, looked at at its end (and wherever the longer history looked before)"""
+    c = dict(case, seq=case["seq"][:k + 1])
+    if case.get("look") is not None:
+        c["look"] = looks(case)[:k] + [1]
+    return c
+
+UNOBS = ":after-unobserved-steps"
+
+def _run(I, case, upto=None, localise=True):
+    seq = case["seq"][:upto]
+    look = looks(case, len(seq))
+    allseen = all(look)
     cur, aux = I.AR(I.mkl(case["init"])), I.AR(I.mkl(case.get("aux", [])))
-    ok = inv_fail(cur) is None and inv_fail(aux) is None
+    ok = True
     obs, bad = [], []
-    if not ok:
-        bad.append((-1, "C13:construct-derived-stale-best", "constructor: %s" % (inv_fail(cur) or inv_fail(aux))))
-    for k, op in enumerate(case["seq"][:upto]):
-        cur, aux, s, b, ok = step_impl(I, op, cur, aux, ok)
+    if allseen:
+        ok = inv_fail(cur) is None and inv_fail(aux) is None
+        if not ok:
+            bad.append((-1, "C13:construct-derived-stale-best", "constructor: %s" % (inv_fail(cur) or inv_fail(aux))))
+    seen, last = allseen, -1          # last: the last step after which the harness looked
+    for k, op in enumerate(seq):
+        ok0 = ok
+        cur, aux, s, b, ok = step_impl(I, op, cur, aux, ok, same if look[k] else None, pre_seen=seen)
+        seen = bool(look[k])
         obs.append(s)
+        blind = k - last - 1          # steps since the last look that went unobserved
+        if look[k]:
+            if ok0 and not ok and not any("stale-best" in sig for sig, _ in b):
+                # first seen after an operation that is not itself a mutator (getitem, a derived collection ...)
+                b = b + [("C13:%s-stale-best" % opclass(op["o"]), "after %s: %s" % (json.dumps(op), inv_fail(cur) or inv_fail(aux)))]
+            if blind and ok0 and not ok:
+                # clause (a) held at the last look and fails now: which of the steps in between breaks it?  Re-run the
+                # history up to each of them with a look at its end (fresh objects; the earlier looks stay where they were)
+                where, entries = k, None
+                if localise:
+                    for j in range(last + 1, k):
+                        _, bj, okj = _run(I, cut(dict(case, seq=seq, look=look), j), localise=False)
+                        if not okj:
+                            where, entries = j, [(sig, why) for kk, sig, why in bj if kk == j and "stale-best" in sig]
+                            break
+                if entries is not None:
+                    b = [(sig, why) for sig, why in b if "stale-best" not in sig]
+                    bad += [(where, sig, why) for sig, why in entries]     # (the re-run has put the suffix where it applies)
+                else:
+                    b = [(sig + UNOBS if "stale-best" in sig else sig, why) for sig, why in b]
+            last = k
         bad += [(k, sig, why) for sig, why in b]
+    return obs, bad, ok
+
+def run_seq(I, case, upto=None):
+    """the real code on one case; returns (observations, [(step index, signature, why)]); a failing history is `cut(case, step)`"""
+    obs, bad, _ = _run(I, case, upto)
     return obs, bad
 
 def line(case):
@@ -548,7 +740,14 @@ def pycode(case):
     def SL(s):
         return ":".join("" if x is None else str(x) for x in (s if s[2] is not None else s[:2]))
     out = ["res = AnnealResults(%s)" % L(case["init"]), "aux = AnnealResults(%s)" % L(case.get("aux", []))]
-    for op in case["seq"]:
+    look = looks(case)
+    if case.get("ety", "int") != "int":
+        out.insert(0, "# every state entry 0 / 1 / -1 spelled as %s" % case["ety"])
+    if not all(look):
+        out.insert(0, "# `best` is read only where shown")
+    for kk, op in enumerate(case["seq"]):
+        if kk and not all(look) and look[kk - 1]:
+            out.append("res.best, aux.best")
         o = op["o"]
         fam = {"filter": "lambda r: <%s>", "filter_states": "lambda st: <%s>", "apply_function": "lambda r: <%s>",
                "convert_states": "lambda st: <%s>"}
@@ -590,6 +789,8 @@ def pycode(case):
             "swap": lambda: "res, aux = aux, res",
             "stash": lambda: "aux = res.copy()",
         }.get(o, lambda: "res = res.%s(%s)" % (o, fam.get(o, "%s") % json.dumps({k: v for k, v in op.items() if k != "o"})))())
+    if not all(look):
+        out.append("res.best, aux.best")
     return "; ".join(out)
 
 class Finder:
@@ -604,15 +805,23 @@ class Finder:
         if sig not in self.best or size < self.best[sig][0]:
             self.best[sig] = (size, case, why)
 
-    def emit(self, ctx, I):
+    def emit(self, ctx, I=None):
         for sig, (_, case, why) in sorted(self.best.items()):
-            case, why = minimise(I, case, sig, why)
+            case, why = minimise(impl_for(case), case, sig, why)
             ctx.violation(sig, case, "%s  [minimal history: %s ; %d failing histories with this signature in this run]"
                           % (why, pycode(case), self.count[sig]))
 
+_impls = {}
+
+def impl_for(case):
+    key = (case.get("style", "frac"), case.get("ety", "int"))
+    if key not in _impls:
+        _impls[key] = Impl(*key)
+    return _impls[key]
+
 def fails_with(I, case, sig):
     try:
-        _, bad = run_seq(I, case)
+        _, bad = run_seq(impl_for(case), case)      # (the candidate may name another value style / entry type than I)
     except Exception:
         return None
     last = len(case["seq"]) - 1
@@ -628,8 +837,18 @@ def minimise(I, case, sig, why):
     while changed:
         changed = False
         cands = []
+        lk = looks(case) if case.get("look") is not None else None
         for k in range(len(case["seq"]) - 1):
-            cands.append(dict(case, seq=case["seq"][:k] + case["seq"][k + 1:]))
+            c = dict(case, seq=case["seq"][:k] + case["seq"][k + 1:])
+            if lk is not None:
+                c["look"] = lk[:k] + lk[k + 1:]
+            cands.append(c)
+        if lk is not None:
+            for k in range(len(lk) - 1):
+                if lk[k]:          # a look that is not needed for the failure
+                    cands.append(dict(case, look=lk[:k] + [0] + lk[k + 1:]))
+        if case.get("ety", "int") != "int":
+            cands.append(dict(case, ety="int"))
         for key in ("init", "aux"):
             l = case.get(key, [])
             for k in range(len(l)):
@@ -641,58 +860,87 @@ def minimise(I, case, sig, why):
                 break
     return case, why
 
+def _minval(items):
+    """least value among the items of an observation string (`N` if there is none) — what `best` has to show"""
+    vals = [it.split(":")[0] for it in items.split(";") if it]
+    if not vals:
+        return "N"
+    key = lambda v: (1, 0) if v == "inf" else (-1, 0) if v == "-inf" else (0, Fraction(v))
+    return min(vals, key=key)
+
 def nontrivial_obs(obs):
     prev = None
     for s in obs:
         if s.startswith("E:"):
             return True
-        b = s.split("#")[2].rsplit("|", 2)[1]
+        b = _minval(s.split("#")[2].rsplit("|", 2)[0])
         if prev is not None and b != prev:
             return True
         prev = b
     return False
 
+def policy(case):
+    lk = case.get("look")
+    return "every-step" if lk is None or all(lk) else "end-only" if not any(lk[:-1]) else "some-steps"
+
 def process_seqs(ctx, I, cases, finder, family="seq"):
+    """I: the Impl for all cases, or None = the Impl each case names (value style, entry type)"""
     models = common.run_driver([line(c) for c in cases])
     for c, m in zip(cases, models):
-        obs, bad = run_seq(I, c)
+        obs, bad = run_seq(I or impl_for(c), c)
         ctx.case(c, nontrivial_obs(obs)); ctx.traces += 1
         ctx.count("%s:len%02d" % (family, len(c["seq"])))
+        ctx.count("look:" + policy(c)); ctx.count("ety:" + c.get("ety", "int"))
         for s in obs:
             ctx.count("outcome:" + s.split("#")[0].split(":")[0] + (":" + s.split("#")[0].split(":")[1] if s.startswith("E:") else ""))
         ms = m.get("steps") if isinstance(m, dict) else None
         if ms is None or len(ms) != len(obs):
             ctx.diff(family, c, obs, m)
         else:
+            # the model's state is known after every step; the real object shows `best` only where the history looks
+            look = looks(c)
             for k, (x, y) in enumerate(zip(obs, ms)):
-                if not same_obs(ctx, x, y):
-                    ctx.diff(family, dict(c, seq=c["seq"][:k + 1]), x, y)
+                if not same_obs(ctx, x, y if look[k] else mask(y)):
+                    ctx.diff(family, cut(c, k), x, y)
                     break
         for k, sig, why in bad:
-            finder.add(sig, dict(c, seq=c["seq"][:k + 1]), why)
+            finder.add(sig, cut(c, k), why)
 
 # ------------------------------------------------------------------ exhaustive trees
 
-def explore(ctx, I, finder, init, aux, prefix, alphabet, depth):
+def explore(ctx, I, finder, init, aux, prefix, alphabet, depth, blind=False, tag="tree"):
+    """every sequence over the alphabet of length <= depth after the prefix, node by node against the Lean machine.
+    blind=False: the harness looks at the objects after every step.  blind=True: every history is looked at only at its END —
+    each node is judged on raw copies of the two collections, the objects the longer histories go on with stay unobserved."""
     req = {"op": "c13tree", "init": init, "aux": aux, "prefix": prefix, "alphabet": alphabet, "depth": depth}
     model = common.run_driver([req])[0]
     nodes = model.get("nodes")
     if nodes is None:
         raise common.Infra("driver: %s" % model)
     cur, auxc = I.AR(I.mkl(init)), I.AR(I.mkl(aux))
-    ok = inv_fail(cur) is None and inv_fail(auxc) is None
+    ok = True
+    if not blind:
+        ok = inv_fail(cur) is None and inv_fail(auxc) is None
     pre_obs = []
     for op in prefix:
-        cur, auxc, o, _, ok = step_impl(I, op, cur, auxc, ok)
+        cur, auxc, o, _, ok = step_impl(I, op, cur, auxc, ok, None if blind else same, pre_seen=not blind)
         pre_obs.append(o)
     pos = [0]
     ndiff = [0]
     path = list(prefix)
+    clone = I.rawclone if blind else I.clone
+    extra = {} if I.ety == "int" else {"ety": I.ety}
+
+    def failing():
+        c = dict({"init": init, "aux": aux, "seq": list(path)}, **extra)
+        if blind:
+            c["look"] = [0] * (len(path) - 1) + [1]
+        return c
 
     def walk(cur, auxc, ok, d, compare=True):
         for op in alphabet:
-            c2, a2 = I.clone(cur), I.clone(auxc)
-            c2, a2, s, bad, ok2 = step_impl(I, op, c2, a2, ok)
+            c2, a2 = clone(cur), clone(auxc)
+            c2, a2, s, bad, ok2 = step_impl(I, op, c2, a2, ok, I.rawclone if blind else same, pre_seen=not blind)
             path.append(op)
             i = pos[0]; pos[0] += 1
             ctx.evaluations += 1
@@ -700,17 +948,21 @@ def explore(ctx, I, finder, init, aux, prefix, alphabet, depth):
             if eq is False:
                 ndiff[0] += 1
                 if ndiff[0] <= 20:
-                    ctx.diff("tree", {"init": init, "aux": aux, "seq": list(path)}, s, nodes[i] if i < len(nodes) else None)
+                    ctx.diff(tag, failing(), s, nodes[i] if i < len(nodes) else None)
             for sig, why in bad:
-                finder.add(sig, {"init": init, "aux": aux, "seq": list(path)}, why)
+                if blind and len(path) > 1 and "stale-best" in sig:
+                    sig += UNOBS
+                finder.add(sig, failing(), why)
             if d > 1:
                 walk(c2, a2, ok2, d - 1, compare and eq is True)   # below a difference the states differ anyway
             path.pop()
     walk(cur, auxc, ok, depth)
     if pos[0] != len(nodes):
-        ctx.diff("tree", {"init": init, "aux": aux, "prefix": prefix}, pos[0], len(nodes))
+        ctx.diff(tag, {"init": init, "aux": aux, "prefix": prefix}, pos[0], len(nodes))
     ctx.traces += pos[0]
     ctx.count("tree:nodes", pos[0])
+    if tag != "tree":
+        ctx.count(tag + ":nodes", pos[0])
 
 # ------------------------------------------------------------------ random sequences
 
@@ -801,6 +1053,14 @@ def gen_case(rng, maxlen=15, pinf=0.12):
         c["aux"] = aux
     if c["style"] == "float" and not all_dyadic(c):
         c["style"] = "frac"
+    # observation policy: where the harness reads `best` (the end of the history is always looked at)
+    r = rng.random()
+    if r >= 0.4:
+        p = 0.0 if r < 0.7 else rng.choice([0.15, 0.3, 0.5])
+        c["look"] = [int(rng.random() < p) for _ in seq[:-1]] + [1]
+    # the number type the state entries are spelled in
+    if rng.random() < 0.5:
+        c["ety"] = rng.choice(ETYPES[1:])
     return c
 
 def all_dyadic(c):
@@ -819,9 +1079,23 @@ def all_dyadic(c):
 
 # ------------------------------------------------------------------ the check
 
+# the alphabet of the `ety` tree: the two conversions, what feeds them (elements of both kinds arriving by every route) and what
+# carries typed states along (copies, slices, user functions on states)
+ETY_INITS = [[A, B, S], [S, Z, N], [H, A]]
+ETY_ALPHA = [{"o": "to_boolean"}, {"o": "to_spin"}, {"o": "append", "r": Z}, {"o": "add_state", "r": N}, {"o": "pop", "i": 0},
+             {"o": "extend_aux"}, {"o": "iadd_list", "l": [S, A]}, {"o": "copy"}, {"o": "getslice", "sl": sl(1)}, {"o": "sort"},
+             {"o": "convert_states", "f": "relabel", "k": 1}, {"o": "filter_states", "f": "has", "k": 0, "v": 1}, {"o": "stash"}]
+
 def check(ctx):
-    I = Impl()
     finder = Finder()
+    try:
+        _check(ctx, finder)
+    finally:
+        # (also when the harness itself stumbles over what the implementation returned: what was found is reported)
+        finder.emit(ctx)
+
+def _check(ctx, finder):
+    I = Impl()
     ctx.exhaustive = True
     full = CORE + EXTRA
     for k, init in enumerate(INITS):
@@ -846,38 +1120,53 @@ def check(ctx):
     for init in INITS:
         for op in full:
             ctx.distinct.add(json.dumps([init, op], sort_keys=True))
+    # observation policy `end-only`, exhaustively: every sequence of length <= 3 over the core alphabet (thorough: the full
+    # one), each looked at only at its end
+    for k, init in enumerate(INITS):
+        explore(ctx, I, finder, init, [B, Z] if k % 2 else [], [], full if ctx.tier == "thorough" else CORE, 3, blind=True,
+                tag="blindtree")
+    if ctx.tier == "thorough":
+        for k, init in enumerate(INF_INITS):
+            explore(ctx, I, finder, init, [P, A] if k % 2 else [], [], inf_alpha, 3, blind=True, tag="blindtree")
+    for init in INITS:
+        for op in CORE:
+            ctx.distinct.add(json.dumps([init, op, "end-only"], sort_keys=True))
+    # state-entry types: every sequence of length <= 3 over the conversion alphabet, per entry type
+    for ety in ETYPES[1:]:
+        for k, init in enumerate(ETY_INITS):
+            explore(ctx, Impl("frac", ety), finder, init, [N, A] if k % 2 else [], [], ETY_ALPHA, 3, tag="etytree")
+            for op in ETY_ALPHA:
+                ctx.distinct.add(json.dumps([init, op, ety], sort_keys=True))
     cases = [gen_case(ctx.rng) for _ in range(ctx.scale(2000, 20000))]
     cases += [gen_case(ctx.rng, 10, pinf=0.7) for _ in range(ctx.scale(800, 8000))]      # family infseq
-    by_style = {}
-    for c in cases:
-        by_style.setdefault(c["style"], []).append(c)
-    for style, cs in sorted(by_style.items()):
-        for fam in ("seq", "infseq"):
-            process_seqs(ctx, Impl(style), [c for c in cs if c["family"] == fam], finder, family=fam)
+    for fam in ("seq", "infseq"):
+        process_seqs(ctx, None, [c for c in cases if c["family"] == fam], finder, family=fam)
     if ctx.diffs and not finder.best:
         search(ctx, I, finder)
-    finder.emit(ctx, I)
 
 def search(ctx, I, finder):
     """failing-input search after a correspondence difference: every one-step extension of each disagreeing
-    history, and a fresh batch of random histories, under the direct oracle only"""
+    history (under its own observation policy and looked at only at its end), and a fresh batch of random histories,
+    under the direct oracle only"""
     for d in ctx.diffs[:30]:
         c = d["case"]
         if "seq" not in c:
             continue
         for op in CORE + EXTRA + INF_OPS:
-            cc = {"init": c["init"], "aux": c.get("aux", []), "seq": c["seq"] + [op]}
-            try:
-                _, bad = run_seq(I, cc)
-            except Exception:
-                continue
-            for k, sig, why in bad:
-                finder.add(sig, dict(cc, seq=cc["seq"][:k + 1]), why)
+            for blind in (False, True):
+                cc = dict(c, aux=c.get("aux", []), seq=c["seq"] + [op])
+                cc["look"] = ([0] * len(c["seq"]) if blind else looks(c)) + [1]
+                try:
+                    _, bad = run_seq(impl_for(cc), cc)
+                except Exception:
+                    continue
+                for k, sig, why in bad:
+                    finder.add(sig, cut(cc, k), why)
     for k in range(3000):
         c = gen_case(ctx.rng, pinf=0.7 if k % 3 == 0 else 0.12)
-        _, bad = run_seq(Impl(c["style"]), c)
+        _, bad = run_seq(impl_for(c), c)
         for k, sig, why in bad:
-            finder.add(sig, dict(c, seq=c["seq"][:k + 1]), why)
+            finder.add(sig, cut(c, k), why)
 
 def replay(ctx, payload):
     c = payload.get("case") or (payload.get("first_difference") or {}).get("case")
@@ -885,7 +1174,6 @@ def replay(ctx, payload):
         ctx.notes.append("replay file has no case; re-running the full check")
         return check(ctx)
     finder = Finder()
-    I = Impl(c.get("style", "frac"))
-    process_seqs(ctx, I, [c], finder, family="replay")
+    process_seqs(ctx, None, [c], finder, family="replay")
     for sig, (_, case, why) in sorted(finder.best.items()):
         ctx.violation(sig, case, why)
